@@ -10,7 +10,7 @@ DEC = ("fetchAndSubOrdered", "fetchAndSubRelaxed", "fetchAndSubRelease", "fetchA
 
 def custom_event(F, cls):
     ce = [f for f in F.fns.values() if f.cls and f.cls.startswith(cls + "::Worker") and f.name.endswith("::customEvent")]
-    return ce[0] if len(ce) == 1 else None
+    return F.flat(ce[0]) if len(ce) == 1 else None
 
 
 def pending_covers_inflight(ck, cls, tag, rule):
@@ -63,7 +63,7 @@ def worker_cleared_after_stop(ck, cls, tag, rule):
     F = ck.facts
     rs = [f for f in F.fns.values() if f.cls == cls and f.name == cls + "::resetOwnThread"]
     ck.require(len(rs) == 1, "%s: resetOwnThread not found" % tag)
-    rs = rs[0]
+    rs = F.flat(rs[0])
     ck.touch(rs)
     g = Graph(rs)
     W = OT + "::m_worker"
